@@ -489,7 +489,8 @@ fn operand_shape(r: &mut Rng, out: &[usize]) -> Vec<usize> {
 }
 
 fn num_dt(r: &mut Rng) -> Dt {
-    *r.pick(&[Dt::F32, Dt::F32, Dt::F32, Dt::I32, Dt::I32, Dt::I32, Dt::I8, Dt::U8])
+    // rten's arithmetic operators accept f32 / i32 only: i8 / u8 are exercised rarely
+    *r.pick(&[Dt::F32, Dt::F32, Dt::F32, Dt::F32, Dt::F32, Dt::I32, Dt::I32, Dt::I32, Dt::I32, Dt::I32, Dt::I8, Dt::U8])
 }
 
 fn any_dt(r: &mut Rng) -> Dt {
@@ -551,7 +552,7 @@ fn gen_case(op: &str, r: &mut Rng) -> Case {
             c.input(tensor(r, &sa, dt, -9, 9)).input(tensor(r, &sb, dt, -9, 9)).tag(dt.name().into())
         }
         "Div" | "Mod" => {
-            let dt = *r.pick(&[Dt::F32, Dt::F32, Dt::I32, Dt::I32, Dt::I32, Dt::I8, Dt::U8]);
+            let dt = *r.pick(&[Dt::F32, Dt::F32, Dt::F32, Dt::F32, Dt::I32, Dt::I32, Dt::I32, Dt::I32, Dt::I32, Dt::I8, Dt::U8]);
             let out = dims(r, 0, 4, 4, true);
             let (sa, sb) = (operand_shape(r, &out), operand_shape(r, &out));
             let (a, mut b) = if dt == Dt::F32 && op == "Div" {
@@ -586,12 +587,12 @@ fn gen_case(op: &str, r: &mut Rng) -> Case {
             c.input(tensor(r, &sa, dt, -3, 3)).input(tensor(r, &sb, edt, 0, 4)).tag(format!("{}^{}", dt.name(), edt.name()))
         }
         "Neg" | "Abs" | "Sign" | "Relu" | "Identity" => {
-            let dt = any_dt(r);
+            let dt = if op == "Identity" { any_dt(r) } else if op == "Relu" && r.chance(4, 5) { Dt::F32 } else { num_dt(r) };
             let s = dims(r, 0, 4, 4, true);
             c.input(tensor(r, &s, dt, -9, 9)).tag(dt.name().into())
         }
         "Min" | "Max" | "Sum" | "Mean" => {
-            let dt = *r.pick(&[Dt::F32, Dt::F32, Dt::I32, Dt::I32, Dt::U8]);
+            let dt = if op == "Mean" && r.chance(4, 5) { Dt::F32 } else { *r.pick(&[Dt::F32, Dt::F32, Dt::F32, Dt::I32, Dt::I32, Dt::I32, Dt::U8]) };
             let out = dims(r, 0, 4, 4, true);
             let n = r.range(1, 3) as usize;
             let mut c = c;
@@ -610,7 +611,7 @@ fn gen_case(op: &str, r: &mut Rng) -> Case {
             c.tag(format!("{},n={}", dt.name(), n))
         }
         "Clip" => {
-            let dt = *r.pick(&[Dt::F32, Dt::F32, Dt::I32, Dt::I32, Dt::I8, Dt::U8]);
+            let dt = num_dt(r);
             let s = dims(r, 0, 4, 4, true);
             let lo = r.range(-6, 4);
             let hi = if r.chance(1, 8) { lo - r.range(1, 3) } else { lo + r.range(0, 6) };
@@ -638,7 +639,7 @@ fn gen_case(op: &str, r: &mut Rng) -> Case {
             c.input(bools(r, &s)).tag("bool".into())
         }
         "Where" => {
-            let dt = any_dt(r);
+            let dt = num_dt(r);
             let out = dims(r, 0, 4, 4, true);
             let (sc, sa, sb) = (operand_shape(r, &out), operand_shape(r, &out), operand_shape(r, &out));
             c.input(bools(r, &sc)).input(tensor(r, &sa, dt, -9, 9)).input(tensor(r, &sb, dt, -9, 9)).tag(dt.name().into())
@@ -788,13 +789,13 @@ fn gen_case(op: &str, r: &mut Rng) -> Case {
             c.input(tensor(r, &sa, dt, -9, 9)).input(T::i64s(sb)).tag(dt.name().into())
         }
         "Tile" => {
-            let dt = any_dt(r);
+            let dt = num_dt(r);
             let s = dims(r, 0, 4, 3, true);
             let reps: Vec<i64> = s.iter().map(|_| if r.chance(1, 10) { 0 } else { r.range(1, 3) }).collect();
             c.input(tensor(r, &s, dt, -9, 9)).input(T::i64s(reps)).tag(dt.name().into())
         }
         "Concat" => {
-            let dt = any_dt(r);
+            let dt = num_dt(r);
             let s = dims(r, 1, 4, 3, true);
             let n = r.range(1, 3) as usize;
             let ax = r.below(s.len());
@@ -1058,7 +1059,7 @@ fn gen_case(op: &str, r: &mut Rng) -> Case {
                 .attr("mode", (!mode.is_empty()).then(|| AV::Str(mode.into()))).tag(t)
         }
         "ReduceSum" | "ReduceProd" | "ReduceMin" | "ReduceMax" | "ReduceSumSquare" | "ReduceL1" | "ReduceMean" => {
-            let dt = *r.pick(&[Dt::F32, Dt::F32, Dt::I32, Dt::I32, Dt::U8]);
+            let dt = if op == "ReduceMean" && r.chance(5, 6) { Dt::F32 } else { *r.pick(&[Dt::F32, Dt::F32, Dt::F32, Dt::I32, Dt::I32, Dt::I32, Dt::U8]) };
             let s = dims(r, 0, 4, if op == "ReduceProd" { 3 } else { 4 }, true);
             let rank = s.len();
             let axes = match r.below(4) {
@@ -1093,12 +1094,13 @@ fn gen_case(op: &str, r: &mut Rng) -> Case {
                 }, b2s(keep), b2s(noop)))
         }
         "ArgMax" | "ArgMin" => {
-            let dt = *r.pick(&[Dt::F32, Dt::F32, Dt::I32, Dt::I32, Dt::U8, Dt::I8]);
+            let dt = num_dt(r);
             let s = dims(r, 1, 4, 4, true);
             let ax = r.below(s.len());
             let axis = if ax == 0 && r.chance(1, 3) { None } else { Some(maybe_neg(r, ax as i64, s.len())) };
             let keep = opt_range(r, 0, 1);
-            let last = if r.chance(1, 2) { Some(r.range(0, 1)) } else { None };
+            // select_last_index=1 is rejected by rten at load: exercised rarely
+            let last = if r.chance(1, 2) { Some(if r.chance(1, 6) { 1 } else { 0 }) } else { None };
             c.input(tensor(r, &s, dt, -3, 3)).int("axis", axis).int("keepdims", keep).int("select_last_index", last)
                 .tag(format!("{},keep={},last={}", dt.name(), b2s(keep), b2s(last)))
         }
@@ -1125,7 +1127,7 @@ fn gen_case(op: &str, r: &mut Rng) -> Case {
                 .nout(2).tag(format!("{},largest={}", dt.name(), b2s(largest)))
         }
         "Trilu" => {
-            let dt = any_dt(r);
+            let dt = num_dt(r);
             let s = dims(r, 2, 4, 4, true);
             let k = if r.chance(1, 3) { None } else { Some(T::scalar(Dt::I32, r.range(-4, 4)).ot(onnx::INT64)) };
             let upper = opt_range(r, 0, 1);
@@ -1158,7 +1160,7 @@ fn gen_case(op: &str, r: &mut Rng) -> Case {
                 }))
         }
         "NonZero" => {
-            let dt = any_dt(r);
+            let dt = num_dt(r);
             let s = dims(r, 1, 4, 4, true);
             c.input(tensor(r, &s, dt, -1, 1)).tag(dt.name().into())
         }
@@ -1186,7 +1188,7 @@ fn gen_case(op: &str, r: &mut Rng) -> Case {
             c.input(T::i64s(s.iter().map(|d| *d as i64).collect())).attr("value", v.map(AV::Tens)).tag(t)
         }
         "DepthToSpace" => {
-            let dt = any_dt(r);
+            let dt = if r.chance(5, 6) { Dt::F32 } else { any_dt(r) };
             let b = *r.pick(&[1usize, 2, 2, 2, 3]);
             let c2 = r.range(1, if b == 3 { 1 } else { 3 }) as usize;
             let s = vec![r.range(1, 2) as usize, c2 * b * b, r.range(1, 3) as usize, r.range(1, 3) as usize];
@@ -1264,7 +1266,8 @@ fn gen_case(op: &str, r: &mut Rng) -> Case {
                 .tag(format!("{}x{},azp={ta},bzp={tb},batched={batched}", da.name(), db.name()))
         }
         "Conv" | "ConvInteger" | "ConvTranspose" => {
-            let nsp = *r.pick(&[1usize, 2, 2, 2, 3]);
+            // rten implements 1-D and 2-D convolution; 3-D is rejected with an error
+            let nsp = *r.pick(&[1usize, 1, 1, 2, 2, 2, 2, 2, 2, 2, 2, 3]);
             let group = *r.pick(&[1usize, 1, 1, 2, 3]);
             let cg = r.range(1, 2) as usize;
             let mg = r.range(1, 2) as usize;
@@ -1282,7 +1285,9 @@ fn gen_case(op: &str, r: &mut Rng) -> Case {
             };
             let has_strides = r.chance(3, 4);
             let has_dil = r.chance(1, 2);
-            let has_ks = r.chance(2, 3);
+            // (rten derives the default strides / dilations from the kernel_shape attribute and rejects
+            // models that omit it together with strides)
+            let has_ks = r.chance(5, 6);
             let strides_a = has_strides.then(|| AV::Ints(strides.clone()));
             let dil_a = has_dil.then(|| AV::Ints(dil.clone()));
             let ks_a = has_ks.then(|| AV::Ints(ks.iter().map(|k| *k as i64).collect()));
@@ -1333,7 +1338,7 @@ fn gen_case(op: &str, r: &mut Rng) -> Case {
             }
         }
         "MaxPool" | "AveragePool" => {
-            let nsp = *r.pick(&[1usize, 2, 2, 2, 3]);
+            let nsp = *r.pick(&[1usize, 1, 2, 2, 2, 2, 2, 2, 2, 3]);
             let ks: Vec<usize> = (0..nsp).map(|_| r.range(1, 3) as usize).collect();
             let strides: Vec<i64> = (0..nsp).map(|_| *r.pick(&[1i64, 1, 2, 3])).collect();
             let ins: Vec<usize> = (0..nsp).map(|i| r.range(ks[i] as i64, 5) as usize).collect();
@@ -1344,9 +1349,10 @@ fn gen_case(op: &str, r: &mut Rng) -> Case {
             } else {
                 None
             };
-            let has_strides = r.chance(3, 4);
+            // (rten rejects pooling models that omit `strides`; dilations other than 1 are rejected at load)
+            let has_strides = r.chance(9, 10);
             let ceil = if r.chance(1, 2) { Some(r.range(0, 1)) } else { None };
-            let dil: Option<Vec<i64>> = if r.chance(1, 5) { Some((0..nsp).map(|_| *r.pick(&[1i64, 1, 2])).collect()) } else { None };
+            let dil: Option<Vec<i64>> = if r.chance(1, 8) { Some((0..nsp).map(|_| *r.pick(&[1i64, 1, 2])).collect()) } else { None };
             let xs = [vec![r.range(1, 2) as usize, r.range(1, 2) as usize], ins].concat();
             let mut x = tensor(r, &xs, Dt::F32, -9, 9);
             let mut c = c;
@@ -1377,12 +1383,12 @@ fn gen_case(op: &str, r: &mut Rng) -> Case {
             c.input(x).tag(format!("{nsp}d"))
         }
         "Resize" => {
-            let dt = *r.pick(&[Dt::F32, Dt::F32, Dt::F32, Dt::I32, Dt::U8]);
+            let dt = *r.pick(&[Dt::F32, Dt::F32, Dt::F32, Dt::F32, Dt::F32, Dt::F32, Dt::F32, Dt::F32, Dt::I32, Dt::U8]);
             let rank = *r.pick(&[4usize, 4, 4, 3, 2]);
             let mut xs: Vec<usize> = (0..rank).map(|_| r.range(1, 4) as usize).collect();
             // scale factor per axis, in quarters; leading axes mostly 1
             let mut q: Vec<i64> = (0..rank)
-                .map(|i| if i + 2 < rank && r.chance(4, 5) { 4 } else { *r.pick(&[1i64, 2, 4, 4, 8, 8, 16, 6, 12]) })
+                .map(|i| if i + 2 < rank && r.chance(14, 15) { 4 } else { *r.pick(&[1i64, 2, 2, 4, 4, 4, 8, 8, 8, 16, 16, 6]) })
                 .collect();
             let use_sizes = r.chance(1, 2);
             for i in 0..rank {
@@ -1396,12 +1402,24 @@ fn gen_case(op: &str, r: &mut Rng) -> Case {
                     q[i] = 8;
                 }
             }
-            let cm = *r.pick(&["", "half_pixel", "pytorch_half_pixel", "asymmetric", "align_corners", "half_pixel_symmetric"]);
+            let cm = *r.pick(&["", "half_pixel", "half_pixel", "pytorch_half_pixel", "pytorch_half_pixel", "asymmetric", "asymmetric", "align_corners", "align_corners", "half_pixel_symmetric"]);
             let nm = *r.pick(&["", "round_prefer_floor", "round_prefer_ceil", "floor", "ceil"]);
             let mode = if r.chance(1, 2) { Some(AV::Str("nearest".into())) } else { None };
+            let mut out_sizes: Vec<i64> = (0..rank).map(|i| (xs[i] as i64 * q[i] / 4).max(1)).collect();
+            if cm == "align_corners" && use_sizes {
+                // exact when (in-1)/(out-1) is a power of two: extents from {1,2,3,5}
+                for i in 0..rank {
+                    if q[i] != 4 {
+                        xs[i] = *r.pick(&[1usize, 2, 3, 5]);
+                        out_sizes[i] = *r.pick(&[1i64, 2, 3, 5]);
+                    } else {
+                        out_sizes[i] = xs[i] as i64;
+                    }
+                }
+            }
             let x = tensor(r, &xs, dt, -9, 9);
             let (scales, sizes) = if use_sizes {
-                (None, Some(T::i64s((0..rank).map(|i| (xs[i] as i64 * q[i] / 4).max(1)).collect())))
+                (None, Some(T::i64s(out_sizes)))
             } else {
                 (Some(T::new(vec![rank], Dt::F32, q.clone()).den(4)), None)
             };
